@@ -48,6 +48,12 @@ func optsString(o *rtapi.RunOpts) string {
 	if o.InitState {
 		p = append(p, "InitState")
 	}
+	if o.Shadowed {
+		p = append(p, "every option preceded by its opposite")
+	}
+	if o.Doubled {
+		p = append(p, "every option given twice")
+	}
 	if o.Filename != "" {
 		p = append(p, "file="+o.Filename)
 	}
